@@ -108,6 +108,7 @@ package keeper
 // does not list the custody asset the function returns success without recording anything - see
 // DESIGN A.6; the clause is stated for listed assets.)
 //@ func (Keeper).Borrow
+//@ callers-assumed C09: the flows above the row writers (open, close, liquidation) are not under a stored-state contract yet (DESIGN A.5)
 //@ decabstract
 //@ forall d Str
 //@ forall s Int
@@ -187,12 +188,22 @@ package keeper
 //@ func (Keeper).SetMTP
 //@ modifies table:perpetual:types.GetMTPKey, table:perpetual:types.MTPCountPrefix, table:perpetual:types.OpenMTPCountPrefix, *mtp.Id
 //@ modular-for (Keeper).Borrow
+//@ callers-assumed C09: the flows above the row writers (open, close, liquidation) are not under a stored-state contract yet (DESIGN A.5)
 //@ assumes !mtpHas(ctx, unbech32(mtp.Address), mtpIdCount(ctx) + 1)
 //@ ensures C10/stored-under-owner-and-id: err == nil ==> mtpHas(ctx, unbech32(mtp.Address), mtp.Id)
 //@ ensures C09/set-keeps-open-counter-in-step: err == nil ==> mtpCountGap(ctx) == old(mtpCountGap(ctx)) + ite(old(mtp.Id) == 0, 0, ite(old(mtpHas(ctx, unbech32(mtp.Address), mtp.Id)), 0, 0 - 1))
 //@ ensures C09/set-stores-the-amounts: err == nil ==> mtpRow(ctx, unbech32(mtp.Address), mtp.Id).Custody == mtp.Custody && mtpRow(ctx, unbech32(mtp.Address), mtp.Id).Liabilities == mtp.Liabilities && mtpRow(ctx, unbech32(mtp.Address), mtp.Id).Collateral == mtp.Collateral
 
+//@ func (Keeper).SetOpenMTPCount
+//@ callers C09/open-counter-written-only-with-the-rows: (Keeper).SetMTP, (Keeper).DestroyMTP, InitGenesis
+//@ ensures C09/stores-the-open-counter: openMtpCount(ctx) == count
+
+//@ func (Keeper).SetMTPCount
+//@ callers C09/id-counter-written-only-when-an-id-is-handed-out: (Keeper).SetMTP, InitGenesis
+//@ ensures C09/stores-the-id-counter: mtpIdCount(ctx) == count
+
 //@ func (Keeper).DestroyMTP
+//@ callers-assumed C09: the flows above the row writers (open, close, liquidation) are not under a stored-state contract yet (DESIGN A.5)
 //@ ensures C09/destroy-keeps-open-counter-in-step: err == nil && old(openMtpCount(ctx)) > 0 ==> mtpCountGap(ctx) == old(mtpCountGap(ctx))
 //@ ensures C09/destroy-removes-the-row: err == nil ==> !mtpHas(ctx, mtpAddress, id)
 //@ ensures C09/destroy-refuses-a-missing-position: (err != nil) == !old(mtpHas(ctx, mtpAddress, id))
@@ -231,6 +242,7 @@ package keeper
 // ---- C09: pool aggregates equal the sums over positions (per operation, on the objects the operation is
 // handed; see DESIGN A.4 for the scope) ---------------------------------------------------------------------
 //@ func (Keeper).Repay
+//@ callers-assumed C09: the flows above the row writers (open, close, liquidation) are not under a stored-state contract yet (DESIGN A.5)
 //@ forall d Str
 //@ forall s Int
 //@ modifies bank, module:amm, module:perpetual, *mtp, *pool, *ammPool
@@ -256,8 +268,52 @@ package keeper
 
 // Consolidation: the surviving position takes over exactly the amounts of the position that is removed.
 //@ func (Keeper).OpenConsolidateMergeMtp
+//@ callers-assumed C09: the flows above the row writers (open, close, liquidation) are not under a stored-state contract yet (DESIGN A.5)
 //@ modifies module:perpetual, *existingMtp, *newMtp
 //@ inline
 //@ ensures C09/merge-moves-the-amounts-to-the-surviving-position: err == nil ==> existingMtp.Custody == old(existingMtp.Custody) + old(newMtp.Custody) && existingMtp.Liabilities == old(existingMtp.Liabilities) + old(newMtp.Liabilities) && existingMtp.Collateral == old(existingMtp.Collateral) + old(newMtp.Collateral)
 //@ ensures C09/merge-removes-the-merged-position: err == nil ==> !mtpHas(ctx, unbech32(newMtp.Address), newMtp.Id)
 //@ ensures C09/merge-stores-the-surviving-position: err == nil && (unbech32(existingMtp.Address) != unbech32(newMtp.Address) || existingMtp.Id != newMtp.Id) ==> mtpHas(ctx, unbech32(existingMtp.Address), existingMtp.Id) && mtpRow(ctx, unbech32(existingMtp.Address), existingMtp.Id).Custody == existingMtp.Custody && mtpRow(ctx, unbech32(existingMtp.Address), existingMtp.Id).Liabilities == existingMtp.Liabilities && mtpRow(ctx, unbech32(existingMtp.Address), existingMtp.Id).Collateral == existingMtp.Collateral
+
+// Writers of other tables of the module (rate history, to-pay list): the checked frame shows they cannot
+// touch positions or counters. They walk a store range of unknown length: decided for every run of up
+// to the unrolling bound iterations (labelled bounded in the evidence).
+//@ func (Keeper).DeleteBorrowRate
+//@ inline
+//@ other-tables
+//@ loop-bounded
+//@ modifies table:perpetual:types.InterestRatePrefix/types.GetUint64Bytes/iterkey
+//@ ensures C09/other-table: mtpCountGap(ctx) == old(mtpCountGap(ctx))
+
+//@ func (Keeper).DeleteFundingRate
+//@ inline
+//@ other-tables
+//@ loop-bounded
+//@ modifies table:perpetual:types.FundingRatePrefix/types.GetUint64Bytes/iterkey
+//@ ensures C09/other-table: mtpCountGap(ctx) == old(mtpCountGap(ctx))
+
+//@ func (Keeper).DeleteAllFundingRate
+//@ inline
+//@ other-tables
+//@ loop-bounded
+//@ modifies table:perpetual:types.FundingRatePrefix/iterkey
+//@ ensures C09/other-table: mtpCountGap(ctx) == old(mtpCountGap(ctx))
+
+//@ func (Keeper).DeleteAllInterestRate
+//@ inline
+//@ other-tables
+//@ loop-bounded
+//@ modifies table:perpetual:types.InterestRatePrefix/iterkey
+//@ ensures C09/other-table: mtpCountGap(ctx) == old(mtpCountGap(ctx))
+
+//@ func (Keeper).DeleteAllToPay
+//@ inline
+//@ other-tables
+//@ loop-bounded
+//@ modifies table:perpetual:iterkey
+//@ ensures C09/other-table: mtpCountGap(ctx) == old(mtpCountGap(ctx))
+
+// Clears positions and counters but not the pools' books: only ever meant for a store migration; shown
+// unreachable from messages, block functions and hooks.
+//@ func (Keeper).ResetStore
+//@ migration-only
